@@ -305,6 +305,12 @@ def drive(tier):
                 for t_ in blk.vtx:
                     for s_ in [i_.scriptSig for i_ in t_.vin] + [o_.scriptPubKey for o_ in t_.vout]:
                         call(s_.GetSigOpCount, True)
+            if name.startswith(("time", "pow", "valid")):
+                # the header-only check on its own, on the header and on the block passed as a header
+                from bitcoin.core import CheckBlockHeader
+                for hobj in (blk.get_header(), blk):
+                    k, v = call(CheckBlockHeader, hobj, pw, now)
+                    R.add("check.hdr", {"blk": gen.block_json(d), "now": int(now // 1), "pow": pw, "name": name}, outcome(k, v), chain=ch, _cost=300)
             k, v = call(CheckBlock, blk, pw, mf, now)
             R.add("check.blk", {"blk": gen.block_json(d), "now": int(now // 1), "pow": pw, "merkle": mf, "name": name}, outcome(k, v), chain=ch,
                   _cost=2000 + sum(len(t2["vout"][0]["script"]) if t2["vout"] else 0 for t2 in txs) * 30)
